@@ -324,7 +324,7 @@ func cmdC11(tier string, seed int64, out, statsOut, replay string) {
 		nCfg = 12
 	}
 	for ci := 0; ci < nCfg; ci++ {
-		gen := histConfig(g, ci)
+		gen := withRpmOnlyCollision(histConfig(g, ci), ci)
 		doc := marshalConfig(&gen.cfg)
 		// every ordered pair of operations (121): whatever one operation leaks, every possible next one sees
 		for _, a := range ops {
@@ -370,7 +370,7 @@ func cmdC11(tier string, seed int64, out, statsOut, replay string) {
 		n = 300
 	}
 	for i := 0; i < n; i++ {
-		gen := histConfig(g, 100+i)
+		gen := withRpmOnlyCollision(histConfig(g, 100+i), 100+i)
 		l := 2 + rng.Intn(9)
 		var seq []string
 		for j := 0; j < l; j++ {
@@ -461,13 +461,6 @@ func histConfig(g *pkgGen, i int) *genOut {
 	c.Contents = append(c.Contents,
 		&files.Content{Source: "src/d/x", Destination: fmt.Sprintf("/etc/hist%d/keep.conf", i), Type: files.TypeConfigNoReplace},
 		&files.Content{Source: "src/f1", Destination: fmt.Sprintf("/etc/hist%d/optional.conf", i), Type: files.TypeConfigMissingOK})
-	// a pattern entry whose match collides with an earlier entry that only rpm ships: rpm's packaging fails, the others'
-	// succeed - and the failure leaves nothing behind in the shared configuration
-	if i%4 >= 2 && (i < 50 || i >= 100) { // (not in the configurations below that another format cannot be built from: which of two failures validation reports first is not fixed)
-		c.Contents = append(c.Contents,
-			&files.Content{Source: "src/f1", Destination: fmt.Sprintf("/usr/share/hist%d/x", i), Packager: "rpm"},
-			&files.Content{Source: "src/d/*", Destination: fmt.Sprintf("/usr/share/hist%d/", i)})
-	}
 	// entries addressed to a packager in a spelling the packagers do not recognise (they belong to nobody), next to
 	// properly addressed ones: nothing may "tidy" the tag on the shared entry
 	c.Contents = append(c.Contents,
@@ -492,6 +485,19 @@ func histConfig(g *pkgGen, i int) *genOut {
 	}
 	if !has {
 		gen.files = append(gen.files, extraFile{Path: "scripts/postinstall", Hex: hex.EncodeToString([]byte("#!/bin/sh\necho postinstall from an override block\n")), Mode: 0o755, MTime: 1650000001})
+	}
+	return gen
+}
+
+// withRpmOnlyCollision: a pattern entry whose match collides with an earlier entry that only rpm ships: rpm's packaging
+// fails, the others' succeed - and the failure leaves nothing behind in the shared configuration. (Added by the history
+// check only, to every second configuration: the concurrency check's signed cases need every format to build, and in the
+// configurations another format cannot be built from, which of two failures validation reports first is not fixed.)
+func withRpmOnlyCollision(gen *genOut, i int) *genOut {
+	if i%2 == 0 {
+		gen.cfg.Contents = append(gen.cfg.Contents,
+			&files.Content{Source: "src/f1", Destination: fmt.Sprintf("/usr/share/hist%d/x", i), Packager: "rpm"},
+			&files.Content{Source: "src/d/*", Destination: fmt.Sprintf("/usr/share/hist%d/", i)})
 	}
 	return gen
 }
